@@ -633,6 +633,16 @@ def check_dm(case, ctx):
     render(a)
     g = ctx.call(dm.render_backprop, U.relayout(y.copy(), case.get('layout', 'C')), wfe)
     adjoint_check(ctx, Ra, a, g, y, bucket, 'ifn %dx%d Nact=%d sep=%d Nout=%r shift=%r upsample=%g wfe=%r' % (n, ncol, Nact, sep, Nout_arg, shift, ups, wfe), tol=1e-9)
+    # the companion is linear in the upstream gradient and does not depend on the commands: a fresh mirror whose only render so far was the flat
+    # one (all commands zero - the first iteration of an optimisation) must hand back the same gradient
+    dm0 = ctx.call(DM, ifn, Nout_arg, Nact, sep, shift, (0, 0, 0), ups)
+    dm0.actuators[:] = 0
+    R0 = np.asarray(ctx.call(dm0.render, wfe))
+    U.check_shape(R0, Nout, 'DM.render:flat')
+    ctx.require(not np.any(R0), 'DM.render:flat', 'a flat mirror renders a non-zero surface')
+    g0 = ctx.call(dm0.render_backprop, y.copy(), wfe)
+    U.check_close(np.asarray(g0), np.asarray(g), 1e-9, bucket + ':after-flat-render', 'render_backprop on a fresh DM after a flat render differs from the gradient after a non-flat render',
+                  atol=1e-12 * max(float(np.abs(np.asarray(g)).max()), 1e-300))
 
 
 CLAUSES = [
